@@ -532,15 +532,18 @@ def rule_show_config_region(prog, fixture=False):
                 root = flow.lvalue_root(obj) if obj is not None else None
                 if root in local_ids:
                     continue
-                for t in prog.call_targets(fn, x):
-                    key = "%s::%s::show-config::%s" % (fn.relfile(), fn.qn, t.name)
-                    const = bool(t.raw.get("const"))
-                    casts = [y for y in t.walk() if y.get("k") == "CXXConstCastExpr"]
-                    ok = const and not casts
-                    r.add(key, fn.loc(x), ok, "const method" if ok else
-                          "%s is called under --show-config on `%s` and is %s: the diagnostic can alter the state the "
-                          "command then works on (e.g. add empty drives to the table)" %
-                          (t.qn, show(obj)[:30], "not a const method" if not const else "casting constness away"))
+                info = prog.callees.get(x.get("fn")) or {}
+                if not info.get("method"):
+                    continue
+                nm = notpl(info.get("q") or "?")
+                key = "%s::%s::show-config::%s" % (fn.relfile(), fn.qn, nm.split("::")[-1])
+                const = bool(info.get("const"))
+                casts = [y for t in prog.call_targets(fn, x) for y in t.walk() if y.get("k") == "CXXConstCastExpr"]
+                ok = const and not casts
+                r.add(key, fn.loc(x), ok, "const method" if ok else
+                      "%s is called under --show-config on `%s` and is %s: the diagnostic can alter the state the "
+                      "command then works on (e.g. add empty drives to the table)" %
+                      (nm, show(obj)[:30], "not a const method" if not const else "casting constness away"))
     return r
 
 
@@ -551,6 +554,7 @@ def run(ctx):
 
 
 SELFTESTS = [
+    (rule_show_config_region, ["c16_policy_bad.cc"], ["c16_policy_good.cc"], "show-config::"),
     (rule_verbose_regions, ["c18_bad.cc"], ["c18_good.cc"], "verbose-region"),
     (rule_layering, ["c18_bad.cc"], ["c18_good.cc"], "lib_identify"),
     (rule_presentation_inputs, ["c18_bad.cc"], ["c18_good.cc"], "getenv"),
